@@ -67,6 +67,7 @@ import (
 	"strings"
 
 	"github.com/hashicorp/go-hclog"
+	"github.com/hashicorp/serf/coordinate"
 	"google.golang.org/protobuf/types/known/anypb"
 
 	"github.com/hashicorp/consul/acl"
@@ -136,7 +137,7 @@ type verifC17Seed struct {
 }
 
 type verifC17Op struct {
-	Kind string `json:"kind"` // seed | cfg | kv | vip | update | list | quiesce
+	Kind string `json:"kind"` // seed | cfg | kv | vip | coord | session | kvlock | pq | update | list | quiesce
 	Peer string `json:"peer,omitempty"`
 
 	Seed *verifC17Seed `json:"seed,omitempty"`
@@ -145,6 +146,12 @@ type verifC17Op struct {
 	CfgName string `json:"cfg_name,omitempty"`
 
 	Key string `json:"key,omitempty"`
+
+	// coord / session / kvlock / pq: LOCAL side data keyed by node NAME only (no peer dimension)
+	Node      string   `json:"node,omitempty"`
+	Session   string   `json:"session,omitempty"`    // session ID (UUID)
+	Checks    []string `json:"sess_checks,omitempty"` // node checks the session is bound to
+	Behavior  string   `json:"behavior,omitempty"`   // release | delete
 
 	Svc       string        `json:"svc,omitempty"`
 	Snap      *verifC17Snap `json:"snap,omitempty"` // nil => handleUpdateService(nil)
@@ -531,6 +538,10 @@ func (st *verifC17State) dump(f verifkit.F) []verifC17Row {
 			r.Owner, r.Node, r.ServiceID, r.ServiceName = x.PeerName, x.Node, x.ServiceID, x.ServiceName
 		case *structs.HealthCheck:
 			r.Owner, r.Node, r.ServiceID, r.ServiceName, r.CheckID = x.PeerName, x.Node, x.ServiceID, x.ServiceName, string(x.CheckID)
+		case *structs.Session:
+			r.Node = x.Node // sessions, coordinates: local-only tables keyed by node NAME (owner stays "-": must never change)
+		case *structs.Coordinate:
+			r.Node = x.Node
 		case state.ServiceVirtualIP:
 			r.Owner = x.Service.Peer
 		case *state.ServiceVirtualIP:
@@ -678,6 +689,13 @@ func (st *verifC17State) nonInterference(f verifkit.F, peer string, before, afte
 				if json.Unmarshal([]byte(r.JSON), &e) == nil && (e.Key == "gateway-services" || e.Key == "mesh-topology") {
 					return sigG
 				}
+			}
+		}
+		if r.Table == "index" && r.Owner == "-" {
+			// a max-index row of a table without peer dimension: name the table
+			var e struct{ Key string }
+			if json.Unmarshal([]byte(r.JSON), &e) == nil && e.Key != "" {
+				return "C17/interference/index/" + e.Key
 			}
 		}
 		return fmt.Sprintf("C17/interference/%s/%s", r.Table, verifC17OwnerClass(r.Owner))
@@ -851,6 +869,27 @@ func verifC17Step(f verifkit.F, st *verifC17State, op verifC17Op) {
 		if err := st.store.KVSSet(st.be.next(), &structs.DirEntry{Key: op.Key, Value: []byte("v-" + op.Key)}); err != nil {
 			f.Fatalf("harness: KVSSet: %v", err)
 		}
+	case "coord":
+		c := coordinate.NewCoordinate(coordinate.DefaultConfig())
+		c.Vec[0] = 0.5
+		if err := st.store.CoordinateBatchUpdate(st.be.next(), structs.Coordinates{{Node: op.Node, Coord: c}}); err != nil {
+			f.Fatalf("harness: CoordinateBatchUpdate: %v", err)
+		}
+	case "session":
+		sess := &structs.Session{ID: op.Session, Node: op.Node, Behavior: structs.SessionBehavior(op.Behavior), NodeChecks: op.Checks}
+		if err := st.store.SessionCreate(st.be.next(), sess); err != nil {
+			f.Fatalf("harness: SessionCreate: %v", err)
+		}
+	case "kvlock":
+		ok, err := st.store.KVSLock(st.be.next(), &structs.DirEntry{Key: op.Key, Value: []byte("held"), Session: op.Session})
+		if err != nil || !ok {
+			f.Fatalf("harness: KVSLock: %v %v", ok, err)
+		}
+	case "pq":
+		if err := st.store.PreparedQuerySet(st.be.next(), &structs.PreparedQuery{ID: op.Key, Name: "pq-" + op.Key, Session: op.Session,
+			Service: structs.ServiceQuery{Service: "web"}}); err != nil {
+			f.Fatalf("harness: PreparedQuerySet: %v", err)
+		}
 	case "vip":
 		if err := st.store.SystemMetadataSet(st.be.next(), &structs.SystemMetadataEntry{Key: structs.SystemMetadataVirtualIPsEnabled, Value: "true"}); err != nil {
 			f.Fatalf("harness: SystemMetadataSet: %v", err)
@@ -960,6 +999,17 @@ func (st *verifC17State) nodeClauses(f verifkit.F, peer string, before, after []
 	}
 	for _, n := range verifC17Keys(beforeNodes) {
 		_, still := afterNodes[n]
+		if !still {
+			// an imported node goes away while the LOCAL node of the same name owns rows in tables without a peer dimension
+			for _, r := range before {
+				if r.Node == n && r.Table == "sessions" {
+					st.c.Label("twin:imported-node-removed-while-local-twin-has-session")
+				}
+				if r.Node == n && r.Table == "coordinates" {
+					st.c.Label("twin:imported-node-removed-while-local-twin-has-coordinate")
+				}
+			}
+		}
 		switch {
 		case candidates[n] && hosts[n] == 0:
 			if still {
